@@ -9,6 +9,7 @@
    One function per Go function, same branch order.  Every assert()/panic is
    an explicit [Err] outcome.  No proofs here. *)
 From Coq Require Import List NArith ZArith Bool.
+From RecordUpdate Require Import RecordUpdate.
 From Verif Require Import Base.Bytes Codec.Messages Node.Types.
 Import ListNotations.
 Open Scope N_scope.
@@ -366,7 +367,8 @@ Definition restart (s0 : nstate) (keep : N) : outcome nstate :=
   let s1 := set_log s (st_logprev s) (st_log s) (fst last) (snd last) in
   cc <~ open_configs s1 ;;
   let s2 := set_configs s1 (fst cc) (snd cc) in
-  let s3 := set_ldr (set_cnd (set_flr (set_snapbusy (set_closed (set_leader (set_role s2 Follower) 0) false) false) false false) 0 false) None in
+  let s3 := set_ldr (set_cnd (set_flr (set_snapbusy (set_closed (set_leader (set_role s2 Follower) 0) false) false) false false) 0 false) None
+              <| st_snapreq := None |> in
   if 0 <? st_snapidx s3 then
     Done (set_commit (set_fsm s3 (st_snapidx s3) (st_snapterm s3)) (st_snapidx s3))
   else Done (set_commit (set_fsm s3 0 0) 0).
